@@ -8,3 +8,36 @@ pub mod zkir_gen;
 pub mod ops_native;
 pub mod regex_ref;
 pub mod s3;
+
+/// The minimal JWT payload of the in-repo parser test (accepted by the shipped `Jwt` automaton).
+pub const MINIMAL_JWT: &str = r#"{
+    "iss" : "",
+    "sub" : "",
+    "nbf" : 0,
+    "exp" : 1,
+    "vc" : {
+       "credentialSubject" : {
+          "nationalId" : "id",
+          "familyName" : "fn",
+          "givenName" : "gn",
+          "publicKeyJwk" : {
+             "kty" : "",
+             "crv" : "",
+             "x" : "x",
+             "y" : "y"
+          },
+          "id" : "",
+          "birthDate" : "bd"
+       },
+       "type" : [],
+       "@context" : [],
+       "issuer" : "",
+       "credentialStatus" : {
+          "statusPurpose" : "",
+          "statusListIndex" : 3,
+          "id" : "",
+          "type" : "",
+          "statusListCredential" : ""
+       }
+    }
+}"#;
